@@ -21,7 +21,9 @@ for pkg in sorted(os.listdir(hooks)):
         replace[dst] = os.path.join(d, f)
 # generated extracts of current repository sources (tools/vgen): added files only
 vgen_bin = os.path.join(here, "bin", "vgen")
-cmd = [vgen_bin] if os.path.exists(vgen_bin) else ["go", "run", "./tools/vgen"]
+vgen_src = os.path.join(here, "tools", "vgen", "main.go")
+fresh = os.path.exists(vgen_bin) and os.path.getmtime(vgen_bin) >= os.path.getmtime(vgen_src)
+cmd = [vgen_bin] if fresh else ["go", "run", "./tools/vgen"]  # a stale binary is never used
 out = subprocess.run(cmd + ["-repo", repo, "-out", scr], capture_output=True, text=True, cwd=here)
 if out.returncode != 0:
     sys.stderr.write(out.stdout + out.stderr)
